@@ -28,7 +28,6 @@ package main
 
 import (
 	"fmt"
-	"os"
 	"sort"
 	"strings"
 	"sync"
@@ -179,11 +178,10 @@ func (e *explorer) walk(hist []uint8, parentKey string, succ func(li uint8, r re
 			r.actual = append([]uint8{}, actual...)
 			w = nil
 		}
-		out[li] = r
+		out[li] = result{ok: true, key: r.key, o: r.o}
 		if succ != nil {
 			succ(uint8(li), r)
 		}
-		r.w = nil
 	}
 	return out
 }
@@ -387,9 +385,6 @@ func main() {
 	totalStates, maxLetters, subsetCommits := 0, 0, 0
 	var totalTrans, merges, mergeChecks, mergesFailed, commitStates int64
 	for _, cfg := range configs {
-		if only := os.Getenv("C15_ONLY"); only != "" && only != cfg.Name {
-			continue
-		}
 		f := newFixture(cfg)
 		if len(f.letters) > maxLetters {
 			maxLetters = len(f.letters)
@@ -422,7 +417,6 @@ func main() {
 	if mergesFailed > 0 && run.Violations() == 0 {
 		core.Fatal("canonical key too coarse: %d merged histories behaved differently: %v", mergesFailed, run.Notes)
 	}
-	profStop()
 	run.Finish(core.Coverage{
 		"states":                        totalStates,
 		"transitions":                   int(totalTrans),
